@@ -304,4 +304,117 @@ theorem map_one_mul (l : List Rat) : l.map (fun x => (1 : Rat) * x) = l := by
   | nil => rfl
   | cons a l ih => simp
 
+/-! ### which `eval_gap` call certified which iterate (loop-level bookkeeping) -/
+
+theorem evalLoop_members_only (X : Ctx) (O : Nat → Hyp) (lamHat : List Rat) (TC : Table)
+    (hO : ∀ k, ∃ i, IsMember TC (O k) i) :
+    ∀ (ms : List Rat) (hs : List Hyp) (k : Nat) (r : GapRes), Members TC hs →
+      Members TC (evalLoop X O lamHat ms hs k r).1
+  | [], _, _, _, h1 => h1
+  | mul :: ms, hs, k, r, h1 => by
+    have hmem := bestH_members TC hs (lamHat.map (fun x => mul * x)) (O k) h1 (hO k)
+    unfold evalLoop
+    simp only []
+    split
+    · exact hmem
+    · exact evalLoop_members_only X O lamHat TC hO ms _ (k + 1) _ hmem
+
+theorem evalGap_members (X : Ctx) (O : Nat → Hyp) (TC : Table) (hO : ∀ k, ∃ i, IsMember TC (O k) i) (hs : List Hyp)
+    (k : Nat) (Q lamHat : List Rat) (h : Members TC hs) : Members TC (evalGap X O hs k Q lamHat).1 := by
+  unfold evalGap
+  exact evalLoop_members_only X O lamHat TC hO _ hs k _ h
+
+/-- the gap `eval_gap` reports for the call recorded in `c` -/
+def certGap (P : Params) (O : Oracles) (c : Cert) : Rat := (evalGap P.ctx O.h c.hs c.k c.Q c.lamHat).2.2.gap
+
+structure CertInv (P : Params) (O : Oracles) (TC : Table) (s : State) : Prop where
+  gaps_eq : s.gaps = s.certs.map (fun e => e.2.1)
+  qs_eq : s.qs = s.certs.map (fun e => e.2.2)
+  cert_ok : ∀ e ∈ s.certs, e.2.1 = certGap P O e.1 ∧ e.2.2 = e.1.Q ∧ Members TC e.1.hs
+  lp_ok : ∀ r, s.lpRes = some r →
+    r.2 = (evalGap P.ctx O.h s.lpFrom.1 s.lpFrom.2 r.1.Q r.1.lam).2.2 ∧ Members TC s.lpFrom.1
+  store : Members TC s.hs
+
+theorem solveLP_spec (P : Params) (O : Oracles) (TC : Table) (hO : ∀ k, ∃ i, IsMember TC (O.h k) i) (s : State)
+    (hlp : ∀ r, s.lpRes = some r →
+      r.2 = (evalGap P.ctx O.h s.lpFrom.1 s.lpFrom.2 r.1.Q r.1.lam).2.2 ∧ Members TC s.lpFrom.1)
+    (hst : Members TC s.hs) :
+    (solveLP P O s).1.lpRes = some ((solveLP P O s).2.1, (solveLP P O s).2.2) ∧
+    (solveLP P O s).2.2 = (evalGap P.ctx O.h (solveLP P O s).1.lpFrom.1 (solveLP P O s).1.lpFrom.2
+        (solveLP P O s).2.1.Q (solveLP P O s).2.1.lam).2.2 ∧
+    Members TC (solveLP P O s).1.lpFrom.1 ∧ Members TC (solveLP P O s).1.hs := by
+  unfold solveLP
+  split
+  · next r hr =>
+    have hr' : s.lpRes = some r := by
+      split at hr
+      · exact hr
+      · cases hr
+    obtain ⟨h1, h2⟩ := hlp r hr'
+    exact ⟨hr', h1, h2, hst⟩
+  · exact ⟨rfl, rfl, hst, evalGap_members P.ctx O.h TC hO s.hs s.calls _ _ hst⟩
+
+theorem certInv_init (P : Params) (O : Oracles) (TC : Table) : CertInv P O TC (initState P) := by
+  constructor <;> simp [initState, Members]
+
+theorem certInv_finish (P : Params) (O : Oracles) (TC : Table) (hO : ∀ k, ∃ i, IsMember TC (O.h k) i) (s : State)
+    (hs : CertInv P O TC s) : CertInv P O TC (finish P s (decision P O s)) := by
+  -- facts about the decision
+  have hbh := bestH_members TC s.hs (lamVec P s.theta) (O.h s.calls) hs.store (hO s.calls)
+  have key : (decision P O s).gap = certGap P O (decision P O s).cert ∧
+      (decision P O s).q = (decision P O s).cert.Q ∧ Members TC (decision P O s).cert.hs ∧
+      (∀ r, (decision P O s).s2.lpRes = some r →
+        r.2 = (evalGap P.ctx O.h (decision P O s).s2.lpFrom.1 (decision P O s).s2.lpFrom.2 r.1.Q r.1.lam).2.2 ∧
+        Members TC (decision P O s).s2.lpFrom.1) ∧
+      Members TC (decision P O s).s2.hs := by
+    unfold decision
+    split
+    · exact ⟨rfl, rfl, hbh, hs.lp_ok, evalGap_members P.ctx O.h TC hO _ _ _ _ hbh⟩
+    · simp only []
+      obtain ⟨s1, s2, s3, s4⟩ := solveLP_spec P O TC hO
+        { s with
+          hs := (evalGap P.ctx O.h (bestH s.hs (lamVec P s.theta) (O.h s.calls)).1 (s.calls + 1)
+            (normalise (bump s.qsum (bestH s.hs (lamVec P s.theta) (O.h s.calls)).2))
+            (meanCols P.c.length (s.lamCols ++ [lamVec P s.theta]))).1,
+          calls := (evalGap P.ctx O.h (bestH s.hs (lamVec P s.theta) (O.h s.calls)).1 (s.calls + 1)
+            (normalise (bump s.qsum (bestH s.hs (lamVec P s.theta) (O.h s.calls)).2))
+            (meanCols P.c.length (s.lamCols ++ [lamVec P s.theta]))).2.1 }
+        hs.lp_ok (evalGap_members P.ctx O.h TC hO _ _ _ _ hbh)
+      refine ⟨?_, ?_, ?_, ?_, s4⟩
+      · split
+        · rfl
+        · unfold certGap; simp only []; rw [← s2]
+      · split <;> rfl
+      · split
+        · exact hbh
+        · exact s3
+      · intro r hr
+        rw [s1] at hr
+        cases hr
+        exact ⟨s2, s3⟩
+  obtain ⟨k1, k2, k3, k4, k5⟩ := key
+  constructor
+  · show s.gaps ++ [(decision P O s).gap] = (s.certs ++ [((decision P O s).cert, (decision P O s).gap, (decision P O s).q)]).map _
+    rw [List.map_append, ← hs.gaps_eq]; rfl
+  · show s.qs ++ [(decision P O s).q] = (s.certs ++ [((decision P O s).cert, (decision P O s).gap, (decision P O s).q)]).map _
+    rw [List.map_append, ← hs.qs_eq]; rfl
+  · intro e he
+    have he' : e ∈ s.certs ++ [((decision P O s).cert, (decision P O s).gap, (decision P O s).q)] := he
+    rcases List.mem_append.mp he' with h | h
+    · exact hs.cert_ok e h
+    · rw [List.mem_singleton] at h
+      rw [h]
+      exact ⟨k1, k2, k3⟩
+  · exact k4
+  · exact k5
+
+theorem certInv_runN (P : Params) (O : Oracles) (TC : Table) (hO : ∀ k, ∃ i, IsMember TC (O.h k) i) :
+    ∀ n, CertInv P O TC (runN P O n)
+  | 0 => certInv_init P O TC
+  | n + 1 => by
+    show CertInv P O TC (iter P O (runN P O n))
+    cases hgo : ((runN P O n).done || decide (P.maxIter ≤ (runN P O n).t))
+    · rw [iter_go P O _ hgo]; exact certInv_finish P O TC hO _ (certInv_runN P O TC hO n)
+    · rw [iter_stop P O _ hgo]; exact certInv_runN P O TC hO n
+
 end EGLoop
